@@ -762,5 +762,6 @@ pub fn run(ctx: &Ctx, id: &str) -> i32 {
             report.extra.insert(format!("{k}_min_max"), json!([min.trim_start_matches('0'), max.trim_start_matches('0')]));
         }
     }
+    crate::also_in_release_build(&mut report, id, ctx);
     report.finish()
 }
